@@ -181,3 +181,35 @@ def run(P, rep, tier):
         rep.ob('C09.SEM', 'wait:%s' % lf, bool(other), f.loc(ev), 'waited in %s; posted in %s' %
                (sorted({w[0].name for w in ws})[:5], sorted({p[0].name for p in other})[:5] or 'NO function'))
     rep.floor('C09.SEM', 2)
+
+    # ---------------- ONCE: initialise-once-per-frame under a lock.  The first worker to arrive fills a shared table and raises a
+    # done flag; every other worker tests the flag under the same lock and, finding it raised, goes straight on to *use* the
+    # table.  So the flag may only become visible after the table is complete: the filling call is made with the lock held and
+    # dominates the store that raises the flag.  (motion_proj_init_done uses claim-then-work followed by a hard barrier and is
+    # a different protocol; it is covered by the SPIN rule.)
+    ONCE = {'DecMtlfFrameInfo.lf_info_init_done': ('svt_av1_loop_filter_frame_init', 'DecMtRowInfo.sbrow_mutex')}
+    for flag, (init_fn, lock_cls) in sorted(ONCE.items()):
+        sites = []
+        for f in P.fns:
+            if f.lib != 'Decoder' or f.nocfg:
+                continue
+            for ev in f.events(('st',)):
+                e = ev['e']
+                if e[0] == 'a' and e[1] == '=' and last_field(strip(e[2])) == flag and not (strip(e[3])[0] == 'l' and strip(e[3])[1] == 0):
+                    sites.append((f, ev))
+        if not sites:
+            raise AnalysisBroken('once-flag %s is never raised' % flag)
+        for f, ev in sites:
+            inits = [c for c, n in f.calls(init_fn)]
+            must, may = la.held_classes_at(f, ev)
+            flag_locked = lock_cls in must
+            ok_calls = []
+            for c in inits:
+                m2, _ = la.held_classes_at(f, c)
+                ok_calls.append(lock_cls in m2 and f.ev_dominates(c, ev))
+            ok = flag_locked and bool(inits) and all(ok_calls)
+            rep.ob('C09.ONCE', '%s/%s' % (f.name, flag), ok, f.loc(ev),
+                   ('%s is raised under %s after %s completed under the same lock' % (flag.split('.')[1], lock_cls.split('.')[1], init_fn)) if ok else
+                   ('%s becomes visible before the table it announces is complete (%s is %s): another worker that finds the flag raised filters rows with stale / half-written data'
+                    % (flag.split('.')[1], init_fn, 'not called in this function' if not inits else 'called outside the lock or after the flag is raised')))
+    rep.floor('C09.ONCE', 1)
